@@ -94,6 +94,11 @@ CLAIMED = {
          "Selectors obtained from balancer.Factory over a real stats collector are judged against reference rules on generated lists (n<=5, all statuses, priorities, gauge vectors) sequentially and from up to 32 goroutines: member-or-error, top-tier only and every tier member reached, exact k-per-member round-robin fairness over any window, minimal gauge for least-connections.",
          "Priority's weighted pick uses unseedable math/rand: tier coverage is judged over 1200 selections (miss probability <= e^-29 per case).",
          "DESIGN.md §3 C06"),
+ "C19": ("exploration",
+         "rapid-generated concurrent workloads over scripted per-endpoint outcomes; harness tally (client observations + backend-side attempts) vs counter deltas; gauge sampling and quiescence invariant",
+         "Workloads of 1..64 concurrent clients through the full stack against up to 3 endpoints with fixed scripted outcomes (ok, 500, 404, reset mid-body, stall mid-body, reset before headers, refuse), on proxy, Anthropic translated and passthrough routes, 3 balancers and both engines, with optional client aborts. Gauges are sampled during the run (never negative, never above what the started requests can account for) and must be zero at quiescence; collector totals (global, per endpoint), engine and translator counters are compared as deltas with the harness's own tally: total = success + failure, attempts recorded once, successes = complete 2xx responses, failing endpoints record no success.",
+         "Client-aborted exchanges may be recorded either way; an endpoint skipped for its open breaker may be recorded as a failure (olla engine); four listed known findings (relayed 4xx/5xx and translator backend errors counted as successes, engine totals per request vs outcomes per attempt) are tolerated by exact signature, anything not explained by them is reported.",
+         "DESIGN.md §3 C19"),
  "C20": ("exploration",
          "seed-corpus + rapid-generated byte/JSON mutations with per-target judges; native go fuzz targets (thorough); poisoned discovery rounds and hostile relay bodies through the full stack",
          "Every provider's listing parser (through the real profile factory), the metrics extractor for every profile, TransformResponse and TransformStreamingResponse are fed the repository's own fixtures, hostile constants and rapid-generated byte-level and JSON-aware mutations of them; each call runs under a panic/hang guard (5 s) and its result is judged (error or sane output, finite non-wrapping numbers). At stack level a discovery round in which one endpoint serves an unparseable / empty / oversized / nameless / duplicate listing while another serves a good one must leave the registry consistent, keep a concurrent probe request served and let the next good round through; hostile bodies are relayed through the error and stream paths. The same judges sit inside four native fuzz targets whose saved inputs are replayed on every run.",
